@@ -258,9 +258,9 @@ mod verif_c17s {
     }
     /// The stroke of a line does not depend on the stroke alignment (lines are open shapes: the stroke is
     /// always centred on the ideal line, which is what keeps it within w/2 + 2.5 px of it): pixels() starts
-    /// from the same iterator state and the styled bounding box is the same for all three alignments.
+    /// from the same iterator state for all three alignments.
     /// Constructor-level relational contract through the public styling API, no iteration.
-    //@harness prop=C17,C02 kind=contract tier=quick class=P bound="|dx|, |dy| <= 15, start within +-1024, stroke width <= 8" timeout=900 fns=src/primitives/line/styled.rs::StyledPixelsIterator::new;src/primitives/line/styled.rs::Line::styled_bounding_box;src/primitives/line/thick_points.rs::ThickPoints::new
+    //@harness prop=C17,C02 kind=contract tier=quick class=P bound="|dx|, |dy| <= 15, start within +-1024, stroke width <= 8" timeout=900 fns=src/primitives/line/styled.rs::StyledPixelsIterator::new;src/primitives/line/thick_points.rs::ThickPoints::new
     #[kani::proof]
     #[kani::unwind(6)]
     fn c17_line_stroke_ignores_alignment() {
@@ -279,8 +279,6 @@ mod verif_c17s {
         let (a, b, c) = (StyledPixelsIterator::new(&line, &sc), StyledPixelsIterator::new(&line, &si), StyledPixelsIterator::new(&line, &so));
         assert!(a.line_iter == b.line_iter && a.line_iter == c.line_iter);
         assert!(a.stroke_color == b.stroke_color && a.stroke_color == c.stroke_color);
-        let (ba, bi, bo) = (line.styled_bounding_box(&sc), line.styled_bounding_box(&si), line.styled_bounding_box(&so));
-        assert!(ba == bi && ba == bo);
         kani::cover!(w == 8 && d.x == 15 && d.y == -7);
     }
 
